@@ -97,7 +97,13 @@ func (r *runner) fsState() tv.M {
 	return tv.M{"dirs": dirs, "target": link(r.target), "new": link(r.target + ".new")}
 }
 
-func content(w int, name string) string { return fmt.Sprintf("w%d:%s", w, name) }
+// content of file `name` of Write w; names ending in "0" are written with NIL content (an empty file must still appear)
+func content(w int, name string) string {
+	if strings.HasSuffix(name, "0") {
+		return ""
+	}
+	return fmt.Sprintf("w%d:%s", w, name)
+}
 
 // observe projects the real filesystem onto the contract's obs event.
 func (r *runner) observe() tv.M {
@@ -179,7 +185,11 @@ func (r *runner) write(d *dir.Dir, w int, set []string) (crashed bool, err error
 	}()
 	files := map[string][]byte{}
 	for _, n := range set {
-		files[n] = []byte(content(w, n))
+		if strings.HasSuffix(n, "0") {
+			files[n] = nil
+		} else {
+			files[n] = []byte(content(w, n))
+		}
 	}
 	err = d.Write(files)
 	return false, err
@@ -478,7 +488,7 @@ func TestCheck(t *testing.T) {
 	e.Set("checker_cmd", mc.Cmd)
 
 	// enumerate write sequences x crash points on the real filesystem
-	universe := [][]string{{}, {"a"}, {"a", "b"}, {"b", "c"}, {"c"}}
+	universe := [][]string{{}, {"a"}, {"a", "b"}, {"b", "c"}, {"c", "n0"}}
 	maxLen := ev.Pick(3, 4)
 	var seqs [][][]string
 	var rec func(cur [][]string)
@@ -602,7 +612,7 @@ func TestCheck(t *testing.T) {
 	}
 	e.Set("killed_child_runs", int64(killed))
 	e.Set("evaluations", int64(runs))
-	e.Set("rule", "every case = (sequence of 1..N Write file sets over {∅,{a},{a,b},{b,c},{c}}, set of step points at which the process dies); plus (a) Writes during which the removal of the previous version is made to fail (immutable flag), (b) the Writes crypto/spiffe performs over 4 (8) certificate rotations on a fake clock; crash points enumerated exhaustively for one crash (every step point of every Write of every sequence) and for two crashes in the thorough tier (sampled in quick); the filesystem is projected after every step; non-trivial = at least one crash or at least two Writes; distinct by (sets, crash points)")
+	e.Set("rule", "every case = (sequence of 1..N Write file sets over {∅,{a},{a,b},{b,c},{c,n0}} (n0 has nil content), set of step points at which the process dies); plus (a) Writes during which the removal of the previous version is made to fail (immutable flag), (b) the Writes crypto/spiffe performs over 4 (8) certificate rotations on a fake clock; crash points enumerated exhaustively for one crash (every step point of every Write of every sequence) and for two crashes in the thorough tier (sampled in quick); the filesystem is projected after every step; non-trivial = at least one crash or at least two Writes; distinct by (sets, crash points)")
 	for _, i := range []int{1, len(plans) / 2, len(plans) - 1} {
 		e.Sample(tv.M{"plan": plans[i], "trace": b.TraceStrings(i)})
 	}
